@@ -442,9 +442,176 @@ def load_tree(files, lib, yml, version, mode, api, canon_ast):
     try:
         cfg, libd = _write_tree(root, files, lib, yml, version)
         o = in_child_cpu(lambda: _load_in_child(cfg, libd, mode, api, canon_ast, root), CPU_LIMIT, WALL_LIMIT)
+        if api == "path":
+            try:
+                o["world"] = world_of(cfg, libd, mode, version, root)
+            except Exception as e:  # noqa
+                o["world_error"] = f"{type(e).__name__}: {e}"[:200]
         return o
     finally:
         shutil.rmtree(root, ignore_errors=True)
+
+
+# ------------------------------------------------------------------------------------------------ the world of the Lean model
+
+_PARSE_CACHE = {}
+
+
+def _imports_of(path, version, cacheable):
+    """import paths the real parser reports for a .co file, None when it does not parse (the parser is outside ImportLoop)"""
+    from nemoguardrails.colang import parse_colang_file
+
+    key = (path, version)
+    if cacheable and key in _PARSE_CACHE:
+        return _PARSE_CACHE[key]
+    try:
+        with open(path, encoding="utf-8") as f:
+            content = f.read()
+        with contextlib.redirect_stdout(io.StringIO()), contextlib.redirect_stderr(io.StringIO()):
+            r = parse_colang_file(os.path.basename(path), content=content, version=version)
+        res = list(r.get("import_paths", []) or [])
+    except Exception:  # noqa
+        res = None
+    if cacheable:
+        _PARSE_CACHE[key] = res
+    return res
+
+
+def world_of(cfg, libd, mode, version, root):
+    """What `ImportLoop.fromPath` needs to know about the file tree, gathered WITHOUT the loader's loops: the directory walk
+    (same `os.walk` on the same directory = same order), the `import_paths` of every .yml, the imports of every .co file, and
+    the resolution rule (the path itself relative to the working directory, else under a COLANGPATH root, else that + ".co")."""
+    import yaml
+    import nemoguardrails.rails.llm.config as cfgmod
+
+    roots = ([libd] if mode != "cwd" else []) + list(cfgmod.colang_path_dirs)
+    cwd = libd if mode == "cwd" else os.getcwd()
+    files = []  # id -> [name the loader passes to the parser / puts into the error message, real path]
+    fimports = []
+
+    def short(p):
+        return str(p).replace(root + os.sep, "")
+
+    def new_file(name, real):
+        files.append([short(name), short(real)])
+        fimports.append(_imports_of(real, version, not real.startswith(root)))
+        return len(files) - 1
+
+    def walk(path, real):
+        items = []
+        if os.path.isdir(real):
+            for r, _, fs in os.walk(real, followlinks=True):
+                for f in fs:
+                    full = os.path.join(r, f)
+                    rel = os.path.relpath(full, real)
+                    shown = os.path.join(path, os.path.relpath(full, real))
+                    if rel.startswith("kb"):
+                        continue
+                    if f.endswith(".yml") or f.endswith(".yaml"):
+                        with open(full, encoding="utf-8") as fh:
+                            y = yaml.safe_load(fh.read()) or {}
+                        items.append(["y", list(y.get("import_paths", []) or [])])
+                    elif f.endswith(".co"):
+                        items.append(["c", new_file(shown, full)])
+        elif path.endswith(".co"):
+            items.append(["c", new_file(path, real)])
+        return items
+
+    def resolve(p):
+        if os.path.exists(os.path.join(cwd, p)):
+            return p, os.path.join(cwd, p)
+        for r in roots:
+            if os.path.exists(os.path.join(r, p)):
+                return os.path.join(r, p), os.path.join(r, p)
+            if not p.endswith(".co") and os.path.exists(os.path.join(r, p + ".co")):
+                return os.path.join(r, p + ".co"), os.path.join(r, p + ".co")
+        return None, None
+
+    init = walk(cfg, cfg)
+    paths = {}
+    todo = []
+
+    def push(items):
+        for it in items:
+            todo.extend(it[1] if it[0] == "y" else (fimports[it[1]] or []))
+
+    push(init)
+    while todo:
+        p = todo.pop()
+        if p in paths or not isinstance(p, str):
+            continue
+        actual, real = resolve(p)
+        if actual is None:
+            paths[p] = [None, []]
+            continue
+        items = walk(actual, real)
+        paths[p] = [short(actual), items]
+        push(items)
+    return {"init": init, "paths": [[k, v[0], v[1]] for k, v in paths.items()], "files": files, "fimports": fimports}
+
+
+def model_requests_cfg(case, obs):
+    reqs = []
+    for w in ("base", "variant"):
+        o = obs.get(w)
+        if o and "world" in o:
+            wd = o["world"]
+            reqs.append({"m": "C13.imports", "paths": wd["paths"], "files": [[i, x] for i, x in enumerate(wd["fimports"])], "init": wd["init"], "fuel": 400})
+    return reqs
+
+
+def compare_cfg(case, obs, mouts):
+    i = 0
+    for w in ("base", "variant"):
+        o = obs.get(w)
+        if not (o and "world" in o):
+            continue
+        m = mouts[i]
+        i += 1
+        d = _compare_one(o, m, w)
+        if d:
+            return d
+    return None
+
+
+def _compare_one(o, m, what):
+    wd = o["world"]
+    out = o["outcome"]
+    pre = f"import loops ({what} tree): "
+    if m.get("fuel"):
+        return pre + "the ImportLoop model did not end within its fuel (config_load_terminates says it must)"
+    if out == "timeout":
+        return pre + f"the model (config_load_terminates) says the loops end with {json.dumps(m)[:160]}, the real loader did not finish within {o['limit']}"
+    if out == "adapter":
+        return None
+    if out == "ok":
+        if "ok" not in m:
+            return pre + f"the real loader returned, the model says {json.dumps(m)[:160]}"
+        mo = m["ok"]
+        if mo["import_paths"] != o["import_paths"]:
+            return pre + f"import_paths: real {o['import_paths']} model {mo['import_paths']}"
+        if mo["imported"] != o["imported"]:
+            return pre + f"imported_paths: real {o['imported']} model {mo['imported']}"
+        names = [wd["files"][f][0] for f in mo["files"][:mo["parsed"]]]
+        # a walked file is passed to the parser by its base name, a single imported file by its path
+        real = o.get("parsed", [])
+        exp = [n if n in real else os.path.basename(n) for n in names]
+        if [os.path.basename(x) for x in exp] != [os.path.basename(x) for x in real] or mo["parsed"] != len(mo["files"]):
+            return pre + f"order of the parsed files: real {real} model {names}"
+        return None
+    # raised
+    if "err" not in m:
+        return pre + f"the real loader raised {o.get('cls')} ({o.get('msg', '')[:80]!r}), the model says it returns"
+    e = m["err"]
+    if e[0] == "unresolved":
+        if o.get("cls") == "ValueError" and f"`{e[1]}`" in o.get("msg", ""):
+            return None
+        return pre + f"model: import path {e[1]!r} cannot be resolved; real loader raised {o.get('cls')}: {o.get('msg', '')[:100]}"
+    if e[0] == "parse":
+        if o.get("is_cpe") and wd["files"][e[1]][0] in o.get("msg", ""):
+            return None
+        return pre + f"model: file {wd['files'][e[1]][0]} does not parse (ColangParsingError naming it); real loader raised {o.get('cls')}: {o.get('msg', '')[:100]}"
+    return pre + f"model says {e}, real loader raised {o.get('cls')}"
 
 
 def run_cfg(case, canon_ast):
